@@ -4,6 +4,7 @@ package verifsim
 
 import (
 	"context"
+	"crypto/tls"
 	"errors"
 	"fmt"
 	"io"
@@ -84,6 +85,7 @@ func initProcEnv() {
 		}
 	})
 	installTransport()
+	initPKI()
 }
 
 func closeProcEnv() {
@@ -218,6 +220,7 @@ func NewWorld(spec *WorldSpec, schedSeed uint64, policy int, faults []Fault) *Wo
 		p := NewIdP(w, is.Name, is.Scheme, is.Host)
 		p.Path = is.PathPfx
 		p.AuthQuery = is.AuthQuery
+		p.ServerCA = is.ServerCA
 		p.Knobs = is.Knobs
 		// keys: IdP i signs with ecKeys[2i] (active) and may rotate to ecKeys[2i+1]
 		p.Keys = []*SignKey{penv.ecKeys[(2*i)%len(penv.ecKeys)], penv.ecKeys[(2*i+1)%len(penv.ecKeys)], penv.rsaKey}
@@ -248,6 +251,16 @@ func (w *World) StartNet(tlsFor func(*IdP) any) {
 			} else {
 				host += ":80"
 			}
+		}
+		if p.Scheme == "https" {
+			p := p
+			hostOnly := strings.Split(p.Host, ":")[0]
+			cfg := &tls.Config{GetCertificate: func(*tls.ClientHelloInfo) (*tls.Certificate, error) {
+				c, _ := pki.leaf(p.ServerCA, hostOnly)
+				return c, nil
+			}}
+			w.Net.Serve(host, p.Handler(), cfg)
+			continue
 		}
 		w.Net.Serve(host, p.Handler(), nil)
 	}
